@@ -204,6 +204,8 @@ def configs(tier, seed):
     for n in (1, 2, 3):  # chains of Connects T0 -> c0 -> T1 -> c1 ... whose first write / last read side has no caller at all
         for missing in ("none", "last_read", "first_write"):
             out.append(dict(family="uncalled", n=n, missing=missing))
+    for n in (2, 3):  # fully connected chains whose two END transactions call one exclusive method (they can never run together)
+        out.append(dict(family="uncalled", n=n, missing="none", shared_ends=True))
     if tier == "quick":
         for nw, nr in ((1, 1), (2, 1), (1, 2), (2, 2)):
             for ex in (0, 1, 2):
@@ -528,6 +530,15 @@ def _make_chain(cfg):
             m = TModule()
             for i, c in enumerate(self.cs):
                 m.submodules[f"c{i}"] = c
+            shared = None
+            if cfg.get("shared_ends"):
+                from transactron import Method, def_method
+
+                shared = Method(name="shared")
+
+                @def_method(m, shared)
+                def _():
+                    pass
             for i in range(n + 1):
                 reads = i > 0 and not (i == n and missing == "last_read")
                 writes = i < n and not (i == 0 and missing == "first_write")
@@ -541,6 +552,8 @@ def _make_chain(cfg):
                         m.d.top_comb += self.got[i].eq(data)
                     if writes:
                         self.cs[i].write(m, d=data)
+                    if shared is not None and i in (0, n):
+                        shared(m)
             return m
 
     d = D()
@@ -560,7 +573,7 @@ def _make_chain(cfg):
 
 def _run_chain(cfg, ctx):
     n, missing = cfg["n"], cfg["missing"]
-    tag = f"chain of {n} Connect(s), uncalled side: {missing}"
+    tag = f"chain of {n} Connect(s), uncalled side: {missing}" + (", both end transactions call one exclusive method" if cfg.get("shared_ends") else "")
     try:
         b = Built(lambda: _make_chain(cfg))
     except HarnessError:
@@ -572,7 +585,7 @@ def _run_chain(cfg, ctx):
     o = u.cycle()
     ctx.frames += 1
     B = lambda nm: o.sig(nm) == 1
-    if missing == "none":
+    if missing == "none" and not cfg.get("shared_ends"):
         ctx.witness(f"{tag}: the whole chain runs", [B(f"w{i}") for i in range(n)])
     for i in range(n):
         ctx.prove(f"{tag}: Connect {i}: read and write run in exactly the same cycles", [], B(f"r{i}") == B(f"w{i}"), u)
@@ -580,7 +593,7 @@ def _run_chain(cfg, ctx):
         ctx.prove(f"{tag}: the Connect whose read side has no caller never runs its write side", [], z3.Not(B(f"w{n - 1}")), u)
     if missing == "first_write":
         ctx.prove(f"{tag}: the Connect whose write side has no caller never runs its read side", [], z3.Not(B("r0")), u)
-    if missing == "none":
+    if missing == "none" and not cfg.get("shared_ends"):
         for i in range(1, n + 1):
             ctx.prove(f"{tag}: the argument travels to reader {i} in the same cycle", [], z3.Implies(B(f"r{i - 1}"), o.sig(f"got{i}") == o.sig("arg")), u)
         ctx.prove(f"{tag}: the chain runs exactly when all its transactions request", [], B("w0") == z3.And(*[B(f"req{i}") for i in range(n + 1)]), u)
